@@ -509,6 +509,11 @@ def completion_event_publication(prog: Program):
             inner = a
         else:
             payload.append(a)
+    # the payload is what set() hands over: of the attributes initialised in __init__, those the setter stores into (a configuration attribute that is
+    # only ever read is not a slot of the mailbox)
+    written_by_set = {_self_attr(t) for st in ast.walk(setter.node) if isinstance(st, (ast.Assign, ast.AnnAssign, ast.AugAssign))
+                      for t in (st.targets if isinstance(st, ast.Assign) else [st.target])}
+    payload = [a for a in payload if a in written_by_set]
     if inner is None or not payload:
         raise AnalysisError(f"CompletionEvent: inner event {inner!r}, payload slots {payload!r}")
     out = []
@@ -546,11 +551,28 @@ def completion_event_publication(prog: Program):
     def loads(n):
         return any(isinstance(x, ast.Attribute) and isinstance(x.ctx, ast.Load) and _self_attr(x) in payload
                    for e in gw.header_exprs(n) for x in ast.walk(e))
-    early = [n for n in gw.nodes if loads(n) and n.idx not in {w.idx for w in waits} and not all(gw.dominates(w.idx, n.idx) for w in waits)]
+    wait_ids = {w.idx for w in waits}
+    # every path from the entry to a read passes a wait (several wait sites in different branches are fine)
+    early = [n for n in gw.nodes if loads(n) and n.idx not in wait_ids and (n.idx == gw.entry or gw.reachable(gw.entry, n.idx, avoiding=wait_ids))]
     raises = [n for n in gw.nodes if isinstance(n.stmt, ast.Raise) and loads(n)]
     out.append(("slot-read-after-the-wait", not early and bool(raises),
                 f"line {early[0].lineno}: the slot is read on a path that has not waited" if early else
                 ("wait() never raises what was stored" if not raises else f"{len(raises)} raise(s) of the stored error, all after the wait")))
+    # the wait is as long as its caller says: create_checkpoint waits without a limit because "not confirmed yet" is not "confirmed"; a default limit
+    # substituted inside the mailbox turns every unbounded wait of every caller into a timed one whose False nobody looks at (r8_C03)
+    wparams = [a.arg for a in waiter.node.args.args[1:]]
+    inner_calls = [c for w in waits for c in gw.calls_at(w) if isinstance(c.func, ast.Attribute) and c.func.attr == "wait" and ast.unparse(c.func.value) == f"self.{inner}"]
+    passed = []
+    for c in inner_calls:
+        argv = list(c.args) + [k.value for k in c.keywords]
+        passed.append(len(argv) <= 1 and all(isinstance(a, ast.Name) and a.id in wparams for a in argv))
+    defaults_none = all(isinstance(d, ast.Constant) and d.value is None for d in waiter.node.args.defaults)
+    rebound = [n.lineno for n in gw.nodes if isinstance(n.stmt, (ast.Assign, ast.AnnAssign, ast.AugAssign)) and any(
+        isinstance(x, ast.Name) and x.id in wparams and isinstance(x.ctx, ast.Store) for x in ast.walk(n.stmt))]
+    out.append(("wait-is-bounded-only-by-its-caller", bool(inner_calls) and all(passed) and defaults_none and not rebound,
+                f"{len(inner_calls)} inner wait(s) take the caller's own timeout (default None)" if inner_calls and all(passed) and defaults_none and not rebound else
+                "the inner wait does not take exactly the caller's timeout (a default limit substituted inside the mailbox): a caller that waits without a limit "
+                "is released by the clock with False, which no caller reads - it goes on as if the record had been accepted"))
     return (setter, waiter), out, {"inner": inner, "payload": payload, "signal_sites": len(sig), "stores": len(st_nodes)}
 
 
